@@ -25,7 +25,7 @@ evd,i,t,execs,cov,ncorp,secs,rc=sys.argv[1:]
 p=f"{evd}/{i}.json"
 try:
     e=json.load(open(p))
-    e["coverage"].setdefault("fuzz",[]).append({"target":t,"engine":"libFuzzer (cargo-fuzz)","executions":int(execs),"edge_coverage":int(cov),"corpus_files_after":int(ncorp),"wall_s":int(secs),"crashed":rc!=0,"oracle":"the proptest check's oracle runs inside the target (panic = violation)"})
+    e["coverage"].setdefault("fuzz",[]).append({"target":t,"engine":"libFuzzer (cargo-fuzz)","executions":int(execs),"edge_coverage":int(cov),"corpus_files_after":int(ncorp),"wall_s":int(secs),"crashed":int(rc)!=0,"oracle":"the proptest check's oracle runs inside the target (panic = violation)"})
     json.dump(e,open(p,"w"),indent=1)
 except Exception as ex:
     print("evidence update failed",ex,file=sys.stderr)
